@@ -452,7 +452,7 @@ func runHlsPath(r *vk.Run, segs []string) {
 	w := world.New(world.Conf{"hls.enable": true})
 	defer w.Close()
 	root := strings.TrimSuffix(w.FS.Root, "/") // /vfs/wN/hls
-	baseDir := filepath.Dir(root)               // /vfs/wN
+	baseDir := filepath.Dir(root)              // /vfs/wN
 	// files inside the root
 	w.FS.MkdirAll(root+"/a", 0o755)
 	w.FS.WriteFile(root+"/a/playlist.m3u8", []byte("INSIDE-PLAYLIST"), 0o644)
